@@ -29,7 +29,7 @@ func init() {
 
 const fedHeader = `From Coq Require Import String List ZArith Bool.
 Import ListNotations.
-From GW Require Import Base.Res Base.Json Gql.Syntax Gql.Spec Gql.Guards Gw.Locate Gw.LocateCheck Gw.FedCheck Gw.Points Gw.PointsCheck Gw.Select Gw.Vars Gw.Plan Gw.PlanCheck Gw.Scrub.
+From GW Require Import Base.Res Base.Json Gql.Syntax Gql.Spec Gql.Guards Gw.Locate Gw.LocateCheck Gw.FedCheck Gw.Points Gw.PointsCheck Gw.Select Gw.Vars Gw.Plan Gw.PlanCheck Gw.Scrub Gw.Fed.
 Local Open Scope string_scope.
 Local Open Scope bool_scope.
 `
@@ -440,7 +440,7 @@ func runFed(cfg *runCfg, prop string) error {
 			if model != "true" && len(parsed.Fragments) == 0 {
 				// the planner model (documents without named fragments): the whole step tree
 				if plans, perr := fed.Plan(q.Text); perr == nil && one.OpIndex < len(plans) {
-					model += fmt.Sprintf(" && plan_agrees %d %s %s %s [] %s %s %s", 40, c.Strs(cs.Fed.Priorities), c.URLMap(fed.Cap.Locs),
+					model += fmt.Sprintf(" && plan_agrees %d %s %s %s [] %s %s %s", 400, c.Strs(cs.Fed.Priorities), c.URLMap(fed.Cap.Locs),
 						c.FieldTypes(fed.Cap.Schema), c.S(root), sels, c.pstep(plans[one.OpIndex].RootStep))
 					doc.Dist["model:plan-compared"]++
 				}
@@ -454,9 +454,17 @@ func runFed(cfg *runCfg, prop string) error {
 						for _, pth := range pl.FieldsToScrub["id"] {
 							paths = append(paths, c.Strs(pth))
 						}
-						model += fmt.Sprintf(" && scrub_fields_agree 40 %s %s [%s]", c.ksels(flat), c.pstep(pl.RootStep), strings.Join(paths, "; "))
+						model += fmt.Sprintf(" && scrub_fields_agree 400 %s %s [%s]", c.ksels(flat), c.pstep(pl.RootStep), strings.Join(paths, "; "))
 						doc.Dist["model:scrub-compared"]++
 					}
+				}
+			}
+			if model != "true" && (prop == "C01" || prop == "C04") && len(parsed.Fragments) == 0 && obs.Class == 0 {
+				// the whole request path inside Coq: plan, calls, stitching, scrubbing
+				if flat, ferr := graphql.ApplyFragments(op.SelectionSet, parsed.Fragments); ferr == nil {
+					model += fmt.Sprintf(" && fed_agrees %d %s %s %s %s %s %s %s %s %s [] %d %s", fuel, c.Strs(cs.Fed.Priorities), c.URLMap(fed.Cap.Locs),
+						c.FieldTypes(fed.Cap.Schema), c.FieldShapes(fed.Cap.Schema), w, vars, c.S(root), sels, c.ksels(flat), obs.Class, c.JSON(obs.Data))
+					doc.Dist["model:whole-path-compared"]++
 				}
 			}
 			if prop == "C02" && model != "true" {
@@ -664,4 +672,21 @@ func (c *CoqFile) ksels(ss ast.SelectionSet) string {
 		}
 	}
 	return "[" + strings.Join(parts, "; ") + "]"
+}
+
+// FieldShapes prints, per "Type.field" of the schema, the named type it returns, whether it is a
+// list and whether it is non-null (Gw.Fed.fshape)
+func (c *CoqFile) FieldShapes(s *ast.Schema) string {
+	names := make([]string, 0, len(s.Types))
+	for n := range s.Types {
+		names = append(names, n)
+	}
+	sort.Strings(names)
+	parts := []string{}
+	for _, n := range names {
+		for _, f := range s.Types[n].Fields {
+			parts = append(parts, fmt.Sprintf("(%s, (%s, (%s, %s)))", c.S(n+"."+f.Name), c.S(f.Type.Name()), coqBool(f.Type.Elem != nil), coqBool(f.Type.NonNull)))
+		}
+	}
+	return c.Intern("fsh", "fshape", "["+strings.Join(parts, "; ")+"]")
 }
